@@ -184,6 +184,7 @@ CHECKS = {
         "assumptions": REFLECT_ASSUME,
         "runs": [
             {"entry": M + "/sources/env.HarnessC11NoPrefix", "pkgs": ENVP, "must_reach": ["c11-end", "c11-error"]},
+            {"entry": M + "/sources/env.HarnessC11Names", "pkgs": ENVP, "must_reach": ["c11-names-end"]},
             {"entry": M + "/sources/env.HarnessC11Prefix", "pkgs": ENVP, "must_reach": ["c11-end", "c11-error"], "tiers": ["thorough"]},
         ],
     },
@@ -195,6 +196,7 @@ CHECKS = {
         "runs": [
             {"entry": M + "/sources/flag.HarnessC12Scalars", "pkgs": FLAGP, "must_reach": ["c12-end", "c12-error"]},
             {"entry": M + "/sources/flag.HarnessC12Collections", "pkgs": FLAGP, "must_reach": ["c12-end", "c12-error"]},
+            {"entry": M + "/sources/flag.HarnessC12Nested", "pkgs": FLAGP, "must_reach": ["c12-nested-end", "c12-nested-error"]},
             {"entry": M + "/sources/flag.HarnessC12All", "pkgs": FLAGP, "must_reach": ["c12-end", "c12-error"], "tiers": ["thorough"]},
         ],
     },
@@ -227,6 +229,7 @@ CHECKS = {
         "assumptions": REFLECT_ASSUME,
         "runs": [
             {"entry": M + "/sources/env.HarnessC14Env", "pkgs": ENVP + ["sort"], "must_reach": ["c14-end", "c14-both-error"]},
+            {"entry": M + "/sources/env.HarnessC14EnvImplicit", "pkgs": ENVP + ["sort"], "must_reach": ["c14-implicit-end", "c14-implicit-both-error"]},
         ],
     },
     "C15": {
@@ -264,6 +267,8 @@ CHECKS = {
             {"entry": M + "/sources/env.HarnessC16EnvNamedScalars", "pkgs": ENVP + ["sort"], "must_reach": ["c16-types-end"]},
             {"entry": M + "/sources/env.HarnessC16EnvNamedCollections", "pkgs": ENVP + ["sort"], "must_reach": ["c16-types-end"]},
             {"entry": M + "/sources/env.HarnessC16EnvPointers", "pkgs": ENVP + ["sort"], "must_reach": ["c16-types-end"]},
+            {"entry": M + "/sources/env.HarnessC16EnvNamedElems", "pkgs": ENVP + ["sort"], "must_reach": ["c16-types-end"]},
+            {"entry": M + "/sources/flag.HarnessC16FlagPtrLeaves", "pkgs": FLAGP, "must_reach": ["c16-flag-ptr-end"]},
             {"entry": PARSE + ".HarnessC16ParseTextThorough", "pkgs": TEXT, "must_reach": ["c16-text-end"], "loopcap": 300, "tiers": ["thorough"]},
             {"entry": CC + ".HarnessC16DecodeThorough", "pkgs": LIBS + ["go/token"], "must_reach": ["c16-decode-end"], "loopcap": 300, "tiers": ["thorough"], "workers": 16},
             {"entry": CC + ".HarnessC16EncodeThorough", "pkgs": LIBS + ["go/token"], "must_reach": ["c16-encode-end"], "loopcap": 300, "tiers": ["thorough"]},
